@@ -19,9 +19,29 @@ def canon(root):
     return (root.a.__class__.__name__, root.indent, root.src, ast.dump(root.a, include_attributes=True))
 
 
-def build(fst, src0, hist, kind='exec'):
+def warm_caches(root):
+    """Ask every node the read-only questions whose answers pfst caches (locations, bounding locations, parentheses). A correct
+    implementation gives the same results with or without these queries, so running them before every edit only widens what a
+    history can expose: stale cached answers become visible to the invariant that is checked afterwards."""
+    try:
+        nodes = [root] + list(root.walk(True, self_=False))
+    except Exception:  # noqa: BLE001
+        return
+    for f in nodes:
+        try:
+            f.loc
+            f.bloc
+            if isinstance(f.a, (ast.expr, ast.pattern)):
+                f.pars()
+        except Exception:  # noqa: BLE001
+            pass
+
+
+def build(fst, src0, hist, kind='exec', warm=False):
     root = fst.FST(src0, kind)
     for op in hist:
+        if warm:
+            warm_caches(root)
         E.apply(fst, root, op)
     return root
 
@@ -31,7 +51,7 @@ INTERNAL = ('AttributeError', 'TypeError', 'KeyError', 'AssertionError', 'Unboun
 
 
 def bfs(fst, src0, depth, alphas, part, res, on_state, on_raise=None, kind='exec', cid_prefix='', horizon=10.0,
-        on_pre=None, enum=None):
+        on_pre=None, enum=None, warm=False):
     """alphas[d] = kwargs of edits.enumerate_ops for level d (0-based). part=(r, M): this shard expands only the
     level-1 states whose index in the deterministic level-1 order is == r mod M (level 1 itself is explored by the
     shard with r == 0; the others only rebuild it)."""
@@ -45,7 +65,7 @@ def bfs(fst, src0, depth, alphas, part, res, on_state, on_raise=None, kind='exec
         nxt = []
         count_this = d > 0 or r == 0
         for hist in frontier:
-            base = build(fst, src0, hist, kind)
+            base = build(fst, src0, hist, kind, warm)
             cur = canon(base)
             ops = list(enum(cur[2], d) if enum else E.enumerate_ops(cur[2], **alphas[d]))
             for op in ops:
@@ -54,9 +74,11 @@ def bfs(fst, src0, depth, alphas, part, res, on_state, on_raise=None, kind='exec
                 cid = f'{cid_prefix}{"|".join(E.op_id(o) for o in hist + [op])}'
                 try:
                     with deadline(horizon):
-                        root = build(fst, src0, hist, kind)
+                        root = build(fst, src0, hist, kind, warm)
                         if canon(root) != cur:
                             raise ReplayDivergence(cid)
+                        if warm:
+                            warm_caches(root)
                         if on_pre:
                             on_pre(root, hist, op)
                         try:
